@@ -1,1 +1,175 @@
-(* C06 stub: to be written *)
+(* C06 -- Exchange operator solves the Bloch-McConnell equations between compartments.
+   PARTIAL by design: the matrix exponential of epgpy/exchange.py is LAPACK code (eig/eigh/solve); here it is
+   the variable [expm] constrained by the oracle predicate [is_expm] (identity at 0, semigroup, derivative
+   A . exp(tA)) plus [Hext] (depends on the n x n block only) and [Hdiag] (diagonal case).  The two-pool
+   theorems at the end have NO such hypothesis.  Only statements, each closed by [exact]. *)
+From Coq Require Import List ZArith Reals.
+From Coquelicot Require Import Coquelicot.
+From EPG Require Import Scalar QI State CInst Evolution CDeriv CoefPhys Exchange ExchangeProofs.
+Import ListNotations.
+
+(* (1) M(tau) = Meq + expm(tau Xi) (M0 - Meq) solves dM/dtau = Xi (M - Meq): transverse F+ with
+   Xi_T = -K + diag(-1/T2 + 2 pi i g), F- with conj Xi_T, longitudinal with Xi_L = -K + diag(-1/T1);
+   every compartment i, every phase state k, every tau; and M(0) = M0 *)
+Theorem C06_X_solves_ode_partial (n : nat) (expm : matN Cops -> R -> matN Cops)
+  (Hexpm : forall A, is_expm n A (expm A))
+  (khi : matN Cops) (T1 T2 : nat -> option C) (g : nat -> C) (st eq : fibre Cops) (i k : nat) (tau : R) :
+  (i < n)%nat ->
+  derC (fun t => fp (X_op n expm khi T1 T2 g st eq t i k)) tau
+       (@ksum Cops n (fun l => Cmult (xiT Cops Cinv twopii_C khi T2 g i l)
+                                     (Cminus (fp (X_op n expm khi T1 T2 g st eq tau l k)) (fp (eq l k))))) /\
+  derC (fun t => fm (X_op n expm khi T1 T2 g st eq t i k)) tau
+       (@ksum Cops n (fun l => Cmult (Cconj (xiT Cops Cinv twopii_C khi T2 g i l))
+                                     (Cminus (fm (X_op n expm khi T1 T2 g st eq tau l k)) (fm (eq l k))))) /\
+  derC (fun t => fz (X_op n expm khi T1 T2 g st eq t i k)) tau
+       (@ksum Cops n (fun l => Cmult (xiL Cops Cinv khi T1 i l)
+                                     (Cminus (fz (X_op n expm khi T1 T2 g st eq tau l k)) (fz (eq l k))))).
+Proof. exact (X_solves_ode n expm Hexpm khi T1 T2 g st eq i k tau). Qed.
+Print Assumptions C06_X_solves_ode_partial.
+
+Theorem C06_X_initial_partial (n : nat) (expm : matN Cops -> R -> matN Cops)
+  (Hexpm : forall A, is_expm n A (expm A))
+  (khi : matN Cops) (T1 T2 : nat -> option C) (g : nat -> C) (st eq : fibre Cops) (i k : nat) :
+  (i < n)%nat -> X_op n expm khi T1 T2 g st eq 0 i k = st i k.
+Proof. exact (X_initial n expm Hexpm khi T1 T2 g st eq i k). Qed.
+Print Assumptions C06_X_initial_partial.
+
+(* (2) the equilibrium is a fixed point -- for ANY matrices (no oracle hypothesis) *)
+Theorem C06_X_fixed_point (S : ScalOps) (L : ScalLaws S) (n : nat) (MT MC ML : matN S) (eq : fibre S) (i k : nat) :
+  x_apply_fibre n MT MC ML eq eq i k = eq i k.
+Proof. exact (x_fixed_point S L n MT MC ML eq i k). Qed.
+Print Assumptions C06_X_fixed_point.
+
+(* (3) tau1 then tau2 equals tau1 + tau2 *)
+Theorem C06_X_semigroup_partial (n : nat) (expm : matN Cops -> R -> matN Cops)
+  (Hexpm : forall A, is_expm n A (expm A))
+  (khi : matN Cops) (T1 T2 : nat -> option C) (g : nat -> C) (st eq : fibre Cops) (i k : nat) (t1 t2 : R) :
+  (i < n)%nat ->
+  X_op n expm khi T1 T2 g (X_op n expm khi T1 T2 g st eq t1) eq t2 i k = X_op n expm khi T1 T2 g st eq (t1 + t2) i k.
+Proof. exact (X_semigroup n expm Hexpm khi T1 T2 g st eq i k t1 t2). Qed.
+Print Assumptions C06_X_semigroup_partial.
+
+(* (4) zero exchange: independent relaxation/precession per compartment, equal to the generated E operator *)
+Theorem C06_X_zero_exchange_partial (n : nat) (expm : matN Cops -> R -> matN Cops)
+  (Hext : forall A B : matN Cops, (forall i j, (i < n)%nat -> (j < n)%nat -> A i j = B i j) ->
+          forall t i j, (i < n)%nat -> (j < n)%nat -> expm A t i j = expm B t i j)
+  (Hdiag : forall (d : nat -> C) t i j, (i < n)%nat -> (j < n)%nat ->
+          expm (fun a b => Cmult (d a) (@delta Cops a b)) t i j = Cmult (Cexp (Cmult (RtoC t) (d i))) (@delta Cops i j))
+  (khi : matN Cops) (T1 T2 : nat -> option C) (g : nat -> C) (st eq : fibre Cops) (i k : nat)
+  (tau t1 t2 gg : R) (pd : C) :
+  (forall a b, khi a b = RtoC 0) -> (i < n)%nat -> t1 <> 0%R -> t2 <> 0%R ->
+  T1 i = Some (RtoC t1) -> T2 i = Some (RtoC t2) -> g i = RtoC gg ->
+  eq i k = @mk3 Cops (RtoC 0) (RtoC 0) pd ->
+  X_op n expm khi T1 T2 g st eq tau i k = evolve (E_op tau t1 t2 gg) (st i k) pd.
+Proof. exact (X_zero_exchange_is_E n expm Hext Hdiag khi T1 T2 g st eq i k tau t1 t2 gg pd). Qed.
+Print Assumptions C06_X_zero_exchange_partial.
+
+(* (5) columns of K sum to zero, no relaxation/precession: the total over the compartments is constant in tau
+   (zero derivative + mean-value theorem), per component and phase state *)
+Theorem C06_X_conserves_total_partial (n : nat) (expm : matN Cops -> R -> matN Cops)
+  (Hexpm : forall A, is_expm n A (expm A))
+  (khi : matN Cops) (T1 T2 : nat -> option C) (g : nat -> C) (st eq : fibre Cops) (k : nat) :
+  (forall l, (l < n)%nat -> colsum n khi l = RtoC 0) ->
+  (forall i, T1 i = None) -> (forall i, T2 i = None) -> (forall i, g i = RtoC 0) ->
+  forall tau : R,
+  @ksum Cops n (fun i => fp (X_op n expm khi T1 T2 g st eq tau i k)) = @ksum Cops n (fun i => fp (st i k)) /\
+  @ksum Cops n (fun i => fm (X_op n expm khi T1 T2 g st eq tau i k)) = @ksum Cops n (fun i => fm (st i k)) /\
+  @ksum Cops n (fun i => fz (X_op n expm khi T1 T2 g st eq tau i k)) = @ksum Cops n (fun i => fz (st i k)).
+Proof. exact (X_conserves_total n expm Hexpm khi T1 T2 g st eq k). Qed.
+Print Assumptions C06_X_conserves_total_partial.
+
+(* (6) guards of the array model: accepted => conserving / square / zero column sums; otherwise the error token *)
+Theorem C06_X_rejects_nonconserving (S : ScalOps) (L : ScalLaws S) (o : xop S) (s : smN S) (sh : list nat) (d : list S) :
+  x_apply S o s = XOk S sh d ->
+  forall b, In b (all_idx (set_at (x_ax S o) 1 (s_shape S s))) ->
+  forall i, (i < nth (x_ax S o) (x_shape S o) 0)%nat ->
+  ksum (nth (x_ax S o) (x_shape S o) 0%nat) (fun j =>
+     kmul (get S (fst (x_khi S o)) (snd (x_khi S o))
+             (firstn (length (removelast (fst (x_khi S o)))) (set_at (x_ax S o) i b) ++ [j]))
+          (get S (s_shape S s) (s_dens S s) (set_at (x_ax S o) j b))) = k0.
+Proof. exact (x_apply_rejects S L o s sh d). Qed.
+Print Assumptions C06_X_rejects_nonconserving.
+
+Theorem C06_X_guard_accepts (S : ScalOps) (L : ScalLaws S) (khishape : list nat) (khi : list S) (axis : Z) (ax : nat) :
+  x_guard S khishape khi axis = GOk ax ->
+  (2 <= length khishape)%nat /\ nth ax (removelast khishape) 0%nat = last khishape 0%nat /\
+  forall idx, In idx (all_idx (set_at ax 1 (removelast khishape))) ->
+  forall j, (j < last khishape 0)%nat ->
+    ksum (last khishape 0%nat) (fun i => get S khishape khi (set_at ax i idx ++ [j])) = k0.
+Proof. exact (x_guard_accepts S L khishape khi axis ax). Qed.
+Print Assumptions C06_X_guard_accepts.
+
+Theorem C06_X_rejects_nonsquare (S : ScalOps) (khishape : list nat) (khi : list S) (axis : Z) :
+  (2 <= length khishape)%nat ->
+  nth (norm_axis (length (removelast khishape)) axis) (removelast khishape) 0%nat <> last khishape 0%nat ->
+  x_guard S khishape khi axis = GErrSquare.
+Proof. exact (x_guard_rejects_nonsquare S khishape khi axis). Qed.
+Print Assumptions C06_X_rejects_nonsquare.
+
+(* every entry of the n-d result is the fibre operator on the fibres cut out of the arrays *)
+Theorem C06_x_apply_entry (S : ScalOps) (o : xop S) (s : smN S) (sh : list nat) (d : list S) (m : nat) :
+  x_apply S o s = XOk S sh d -> (m < prodl (sh ++ [s_ns S s; 3%nat]))%nat -> nth m d k0 = x_entry S o s sh m.
+Proof. exact (x_apply_entry S o s sh d m). Qed.
+Print Assumptions C06_x_apply_entry.
+
+(* (7) exchange_matrix: zero column sums (with or without densities), symmetric without densities,
+   K . densities = 0 with densities *)
+Theorem C06_exchange_matrix_ok (S : ScalOps) (L : ScalLaws S) (inv : S -> S) (k : S) (n : nat)
+  (dens : option (nat -> S)) (j : nat) :
+  (j < n)%nat -> kmul (knat (n - 1)) (inv (knat (n - 1))) = @k1 S ->
+  colsum n (exchange_matrix S inv k n dens) j = k0.
+Proof. exact (exchange_matrix_colsum S L inv k n dens j). Qed.
+Print Assumptions C06_exchange_matrix_ok.
+
+Theorem C06_exchange_matrix_balance (S : ScalOps) (L : ScalLaws S) (inv : S -> S) (k : S) (n : nat)
+  (d : nat -> S) (i : nat) :
+  (i < n)%nat -> kmul (knat (n - 1)) (inv (knat (n - 1))) = @k1 S ->
+  (forall j, (j < n)%nat -> kmul (d j) (inv (d j)) = k1) ->
+  ksum n (fun j => kmul (exchange_matrix S inv k n (Some d) i j) (d j)) = k0.
+Proof. exact (exchange_matrix_balance S L inv k n d i). Qed.
+Print Assumptions C06_exchange_matrix_balance.
+
+(* (8) TWO POOLS, scalar rate, no relaxation: NO hypotheses.  The closed form satisfies the oracle predicate
+   for the generator -K, K = exchange_matrix(kappa, 2) = kappa [[1,-1],[-1,1]] *)
+Theorem C06_two_pool_closed_form_is_expm (kappa : R) :
+  is_expm 2 (moppN (K2 kappa)) (E2 kappa) /\
+  (forall i j, (i < 2)%nat -> (j < 2)%nat -> exchange_matrix Cops Cinv (RtoC kappa) 2 None i j = K2 kappa i j).
+Proof. exact (conj (two_pool_is_expm kappa) (exchange_matrix_two kappa)). Qed.
+Print Assumptions C06_two_pool_closed_form_is_expm.
+
+Theorem C06_two_pool_solves_ode (kappa : R) (st eq : fibre Cops) (i k : nat) (tau : R) : (i < 2)%nat ->
+  let Kx := exchange_matrix Cops Cinv (RtoC kappa) 2 None in
+  let XT := xiT Cops Cinv twopii_C Kx (fun _ => None) (fun _ => RtoC 0) in
+  let XL := xiL Cops Cinv Kx (fun _ => None) in
+  derC (fun t => fp (X2 kappa st eq t i k)) tau
+       (@ksum Cops 2 (fun l => Cmult (XT i l) (Cminus (fp (X2 kappa st eq tau l k)) (fp (eq l k))))) /\
+  derC (fun t => fm (X2 kappa st eq t i k)) tau
+       (@ksum Cops 2 (fun l => Cmult (Cconj (XT i l)) (Cminus (fm (X2 kappa st eq tau l k)) (fm (eq l k))))) /\
+  derC (fun t => fz (X2 kappa st eq t i k)) tau
+       (@ksum Cops 2 (fun l => Cmult (XL i l) (Cminus (fz (X2 kappa st eq tau l k)) (fz (eq l k))))).
+Proof. exact (two_pool_solves_ode kappa st eq i k tau). Qed.
+Print Assumptions C06_two_pool_solves_ode.
+
+Theorem C06_two_pool_initial_semigroup_conserves (kappa : R) (st eq : fibre Cops) (i k : nat) (t1 t2 : R) :
+  (i < 2)%nat ->
+  X2 kappa st eq 0 i k = st i k /\
+  X2 kappa (X2 kappa st eq t1) eq t2 i k = X2 kappa st eq (t1 + t2) i k /\
+  @ksum Cops 2 (fun i => fp (X2 kappa st eq t1 i k)) = @ksum Cops 2 (fun i => fp (st i k)) /\
+  @ksum Cops 2 (fun i => fm (X2 kappa st eq t1 i k)) = @ksum Cops 2 (fun i => fm (st i k)) /\
+  @ksum Cops 2 (fun i => fz (X2 kappa st eq t1 i k)) = @ksum Cops 2 (fun i => fz (st i k)).
+Proof.
+  exact (fun Hi => conj (two_pool_initial kappa st eq i k Hi)
+                  (conj (two_pool_semigroup_X kappa st eq i k t1 t2 Hi) (two_pool_conserves kappa st eq k t1))).
+Qed.
+Print Assumptions C06_two_pool_initial_semigroup_conserves.
+
+(* non-vacuity on the executed instance: two compartments on axis 0, one phase state; a conserving matrix is
+   applied, a non-conserving one yields the error token *)
+Example C06_nonvacuous :
+  let mat := [qr 3 4; qr 3 4; qr 1 2;  qr 1 4; qr 1 4; qr 1 2;  qr 1 4; qr 1 4; qr 1 2;  qr 3 4; qr 3 4; qr 1 2] in
+  let s := mkSMN QIops [2%nat] 1 [qr 1 1; qr 1 1; qr 0 1;  qr 0 1; qr 0 1; qr 1 1]
+             ([2%nat; 1%nat; 3%nat], [qr 0 1; qr 0 1; qr 1 1; qr 0 1; qr 0 1; qr 1 1]) [qr 1 1; qr 1 1] in
+  x_apply QIops (mkX QIops 0 [2%nat] mat ([2%nat; 2%nat], [qr 1 1; qr (-1) 1; qr (-1) 1; qr 1 1])) s =
+    XOk QIops [2%nat] [qr 3 4; qr 3 4; qr 1 1;  qr 1 4; qr 1 4; qr 1 1] /\
+  x_apply QIops (mkX QIops 0 [2%nat] mat ([2%nat; 2%nat], [qr 1 1; qr (-2) 1; qr (-1) 1; qr 2 1])) s = XErrConserve QIops.
+Proof. vm_compute. split; reflexivity. Qed.
